@@ -287,6 +287,8 @@ def scan_assumptions(res):
     found = []
     lines = res.get('src_lines', [])
     for i, l in enumerate(lines):
+        if 'imported-lemma' in l:
+            continue
         if re.search(r'external_body|assume_specification|\badmit\s*\(|\bassume\s*\(|external_fn_specification|#\[verifier::external\b|axiom', l):
             # find the next fn name
             name = ''
